@@ -353,6 +353,10 @@ def run(ctx):
         # -- line-oriented emitters: block scalar bodies
         rule_block_guard(ctx, fx, config, breaks, "C12")
         rule_float_writers(ctx, fx, config)
+        # what the writer leaves plain is read back by the untyped inference in the order null, bool, int, float, string — an
+        # integer token must be tried as i64 / u64 before it can become a float (shared rule, C06)
+        from .C06 import rule_any_order
+        rule_any_order(ctx, fx, config)
 
 
 def rule_block_guard(ctx, fx, config, breaks, prop):
